@@ -480,3 +480,150 @@ func concreteRef(c *Ctx, prog string, vals []int64) string {
 	}
 	return "?"
 }
+
+// ---- TPuts (C15): padding specifications ----
+
+// refStrip: the property's definition - every well-formed $<n[.m][*][/]> is removed, anything else is verbatim.
+func refStrip(s string) (out string, pads []string) {
+	i := 0
+	for i < len(s) {
+		if s[i] == '$' && i+1 < len(s) && s[i+1] == '<' {
+			j := i + 2
+			k := j
+			for k < len(s) && s[k] >= '0' && s[k] <= '9' {
+				k++
+			}
+			ok := k > j
+			if ok && k < len(s) && s[k] == '.' {
+				m := k + 1
+				for m < len(s) && s[m] >= '0' && s[m] <= '9' {
+					m++
+				}
+				ok = m > k+1
+				k = m
+			}
+			for ok && k < len(s) && (s[k] == '*' || s[k] == '/') {
+				k++
+			}
+			if ok && k < len(s) && s[k] == '>' {
+				pads = append(pads, s[j:k])
+				i = k + 1
+				continue
+			}
+		}
+		out += string(s[i])
+		i++
+	}
+	return out, pads
+}
+
+var tputsCorpus = []string{"", "abc", "a$<2>b", "a$<10/>b$<1.5*>c", "$<5>", "x$<", "x$<12", "a$<2>b$<3", "$$<2>", "a$>b", "a$<>b", "x$<abc>y", "x$<1.>y", "x$<.5>y", "x$<1a>y", "a$<2*/>b", "a$<2/*>b", "a$<2**>b", "p$<2>q$<x>r$<3>s", "<$<1>>"}
+
+func c15TPuts(run *PropRun) {
+	e := run.Eng
+	db := LoadTermDB(e, true)
+	c := db.Ev.C
+	fn := e.FindFunc(modPath + "/terminfo.(*Terminfo).TPuts")
+	if fn == nil {
+		panic(VerErr{"UNDECIDED: (*Terminfo).TPuts not found"})
+	}
+	type job struct {
+		name, s, user string
+		bounded bool
+	}
+	var jobs []job
+	seen := map[string]bool{}
+	for _, te := range db.Entries {
+		for i := 0; i < db.TI.NumFields(); i++ {
+			f := db.TI.Field(i)
+			if !isString(f.Type()) {
+				continue
+			}
+			s := db.str(te, f.Name())
+			if strings.Contains(s, "$<") && !seen[s] {
+				seen[s] = true
+				jobs = append(jobs, job{fmt.Sprintf("tputs[%s.%s]", te.Name, f.Name()), s, te.Name + "." + f.Name(), false})
+			}
+		}
+	}
+	for i, s := range tputsCorpus {
+		jobs = append(jobs, job{fmt.Sprintf("tputs-grammar[%d:%s]", i, s), s, "padding grammar corpus (bounded stand-in)", true})
+	}
+	bufT := e.PkgBy["bytes"].Types.Scope().Lookup("Buffer").Type()
+	tiT := e.SPkgs[modPath+"/terminfo"].Type("Terminfo").Type()
+	for _, j := range jobs {
+		for _, padded := range []bool{false, true} {
+			st := db.St.clone()
+			st.Frames = nil
+			st.PathID = 0
+			// a description with (or without) a pad character
+			tv := c.zeroValue(st, tiT).(*StructV)
+			nf := &StructV{Typ: tv.Typ, F: append([]Value(nil), tv.F...)}
+			for i := 0; i < db.TI.NumFields(); i++ {
+				if db.TI.Field(i).Name() == "PadChar" && padded {
+					nf.F[i] = conc("\x00")
+				}
+			}
+			to := c.newObject("ti", tiT)
+			st.Mem[to] = nf
+			bo := c.newObject("out", bufT)
+			st.Mem[bo] = c.zeroValue(st, bufT)
+			w := IfaceV{Dyn: types.NewPointer(bufT), Val: PtrV{Obj: bo}, Iface: types.NewInterfaceType(nil, nil)}
+			paths, err := db.Ev.Call(st, fn, []Value{PtrV{Obj: to}, w, conc(j.s)})
+			name := j.name
+			if padded {
+				name += "/padchar"
+			}
+			want, pads := refStrip(j.s)
+			src := fmt.Sprintf("TPuts(%q) writes %q (every well-formed padding specification removed, everything else verbatim) and sleeps %d time(s) iff the description has a pad character; %s", j.s, want, len(pads), j.user)
+			if err != nil || len(paths) != 1 {
+				run.Errors = append(run.Errors, fmt.Sprintf("%s: %v (%d paths)", name, err, len(paths)))
+				continue
+			}
+			fs := paths[0].St
+			got := "<symbolic>"
+			if r, ok := fs.Ghost["rope:"+pathKey(bo, nil)].(StrV); ok {
+				ps := flattenRope(r)
+				if len(ps) == 0 {
+					got = ""
+				} else if len(ps) == 1 && ps[0].Conc != nil {
+					got = *ps[0].Conc
+				}
+			} else {
+				got = ""
+			}
+			sleeps := 0
+			for _, r := range fs.CallLog {
+				if r.Callee == "time.Sleep" {
+					sleeps++
+				}
+			}
+			wantSleeps := 0
+			if padded {
+				wantSleeps = len(pads)
+			}
+			kind := "table"
+			if j.bounded {
+				kind = "table-bounded"
+			}
+			g := run.AddObligation(name, kind, BoolT(got == want && sleeps == wantSleeps), src+fmt.Sprintf(" [real code wrote %q, slept %d time(s)]", got, sleeps))
+			pc := ""
+			if padded {
+				pc = "\\x00"
+			}
+			g.ReplayDir = e.Repo + "/terminfo"
+			g.ReplayGo = replayTest("terminfo", []string{"bytes"}, fmt.Sprintf(`
+	ti := &Terminfo{PadChar: "%s"}
+	var b bytes.Buffer
+	ti.TPuts(&b, %q)
+	if b.String() != %q { fail("TPuts(%%q) wrote %%q, want %%q", %q, b.String(), %q); return }`, pc, j.s, want, j.s, want))
+		}
+	}
+	run.Groups = append(run.Groups, groupObligations(c.Obs)...)
+	c.Obs = nil
+	run.Extra["tputs_strings_from_database"] = len(jobs) - len(tputsCorpus)
+	run.Extra["tputs_grammar_corpus_bounded"] = len(tputsCorpus)
+	for k := range c.Assumed {
+		run.Assumed[k] = true
+	}
+}
